@@ -35,10 +35,10 @@ def seeded():
         c = m.get("confirmed", {})
         total += 1
         caught += 1 if c.get("caught") else 0
-        verdict = "**VIOLATION**" if c.get("check_exit") == 1 else ("no verdict (exit 2)" if c.get("check_exit") == 2 else "missed")
+        verdict = "**VIOLATION**" if c.get("check_exit") == 1 else ("no verdict" if c.get("check_exit") == 2 else "missed")
         rows.append(f"| {d} | {short(m.get('site', ''), 60)} | {short(m.get('summary', ''), 150)} | {verdict} | {rule_of(c.get('check_lines'))} |")
-    head = (f"{total} changes are kept (three waves of two per property, every property by a different agent in every wave); **{caught} are reported as VIOLATION** by the check of their property, "
-            f"{total - caught} end with exit 2 (the change is noticed as a shape the rule does not know, but no definite recogniser exists), none passes silently.\n\n"
+    head = (f"{total} changes are kept (waves 1, 3, 4, 5 and 8 of two per property, every property by a different agent in every wave); **{caught} are reported as VIOLATION** by the check of their property, "
+            f"{total - caught} are not reported (no verdict: the change is noticed as a shape the rule cannot judge; or missed).\n\n"
             "| seed | site | what it breaks | check of its property | rule |\n|---|---|---|---|---|\n")
     return head + "\n".join(rows)
 
